@@ -28,6 +28,7 @@
 (*                                                                         *)
 (* Lines:  case  id, units: <<[u, path, graph, parent, ot]>>, prog, calls  *)
 (*         node  call, u, got: <<payload ids>>, cbs: <<handler ids>>       *)
+(*                intr, intrafter  (interrupted run + resuming call)       *)
 (*         ret   call, err          done          note (ignored)           *)
 (***************************************************************************)
 EXTENDS Integers, Sequences, FiniteSets, TLC, Json
@@ -74,7 +75,7 @@ SumTimes(c, os, n, id) == IF os = <<>> THEN 0
 AllIds(c) == {c.prog[i].id : i \in {j \in 1..Len(c.prog) : c.prog[j].op = "new"}}
 
 \* ------------------------------------------------------------------ the rule
-Idle == [id |-> "", c |-> [units |-> <<>>, prog |-> <<>>, calls |-> <<>>], bad |-> "", seen |-> {}, ret |-> <<>>]
+Idle == [id |-> "", c |-> [units |-> <<>>, prog |-> <<>>, calls |-> <<>>, intr |-> "", intrafter |-> FALSE], bad |-> "", seen |-> {}, ret |-> <<>>]
 Bad(S, r) == [S EXCEPT !.bad = r]
 
 Node(S, e) ==
@@ -95,9 +96,23 @@ Node(S, e) ==
                THEN Bad(S, "designated-callback-did-not-fire")
           ELSE [S EXCEPT !.seen = @ \cup {<<e.call, e.u>>}]
 
+\* Interrupted run + resuming call (c.intr = the leaf with the interrupt-before / -after mark; calls = <<first call, resuming call>>):
+\* the leaves in front of the mark execute in call 1, which returns the interrupt; the others execute in call 2; every one of them
+\* receives exactly the options of the call in which it executes (Node, above, is already per call).
+LeafOrder(c) == SelectSeq(c.units, LAMBDA u : ~u.graph)
+FirstResumed(c) == LET ls == LeafOrder(c) i == CHOOSE j \in 1..Len(ls) : ls[j].u = c.intr IN IF c.intrafter THEN i + 1 ELSE i
+FinalIntr(S) ==
+  LET c == S.c ls == LeafOrder(c) f == FirstResumed(c) IN
+  IF Len(c.calls) # 2 \/ 1 \notin DOMAIN S.ret \/ 2 \notin DOMAIN S.ret THEN "no-return-observed"
+  ELSE IF ~S.ret[1] THEN "interrupt-not-reported"
+  ELSE IF S.ret[2] THEN "resuming-call-failed"
+  ELSE IF \E i \in 1..Len(ls) : (i < f) # (<<1, ls[i].u>> \in S.seen) \/ (i >= f) # (<<2, ls[i].u>> \in S.seen)
+       THEN "node-executed-in-the-wrong-call-or-not-at-all"
+  ELSE ""
 Final(S) ==
   LET c == S.c IN
-  IF \E k \in 1..Len(c.calls) : k \notin DOMAIN S.ret THEN "no-return-observed"
+  IF c.intr # "" THEN FinalIntr(S)
+  ELSE IF \E k \in 1..Len(c.calls) : k \notin DOMAIN S.ret THEN "no-return-observed"
   ELSE IF \E k \in 1..Len(c.calls) : ExpErr(c, k) /\ ~S.ret[k] THEN "invalid-designation-not-reported-as-error"
   ELSE IF \E k \in 1..Len(c.calls) : ~ExpErr(c, k) /\ S.ret[k] THEN "error-without-invalid-designation"
   ELSE IF \E k \in 1..Len(c.calls), u \in Units(c) : ~ExpErr(c, k) /\ ~u.graph /\ <<k, u.u>> \notin S.seen THEN "node-did-not-run"
